@@ -230,6 +230,27 @@ def run(ctx, model):
                 ctx.violation("existing-address-not-readable:" + kind, case, "Tag %r" % (got,))
             elif got.value != want and not (isinstance(want, float) and abs(got.value - want) < 1e-30):
                 ctx.violation("read-wrong-value:" + kind + ":" + t, case, "expected %r got %r" % (want, got.value))
+            # a bit address with an element count (`N7:0/3{2}`): if the driver accepts the write it must do what it reports
+            if kind == "bit" and t in ("N", "B") and "/" in tag and ":" in tag and rng.random() < 0.25 and e + 2 <= len(files[key]) // ELEM[t]:
+                ctag = "%s{2}" % tag
+                vals = [rng.random() < 0.5, rng.random() < 0.5]
+                before2 = read_table(model)
+                try:
+                    w2 = core.with_budget(20, d.write, (ctag, vals))
+                except BaseException as ex:  # noqa
+                    w2 = None
+                    if core.exn_class(ex).startswith("foreign") or core.exn_class(ex) == "hang":
+                        ctx.violation("write-raises:" + core.exn_class(ex), dict(case, tag=ctag), repr(ex)[:200])
+                after2 = read_table(model)
+                ctx.case("slc-write", ("wbc", i, j, ctag))
+                ctx.count("write/bit-count/" + t)
+                if w2:
+                    sz2 = ELEM[t]
+                    got_bits = [bool(int.from_bytes(after2[key][(e + q) * sz2:(e + q) * sz2 + 2], "little") >> sub & 1) for q in range(2)]
+                    if got_bits != vals:
+                        ctx.violation("bit-count-write-reported-written-but-not-stored", dict(case, tag=ctag, value=str(vals)),
+                                      "write(%r, %r) reported success, bit %d of the two words now reads %s" % (ctag, vals, sub, got_bits))
+                files = after2
             # write then read back (the status file is read-only here)
             if t == "S":
                 continue
@@ -310,6 +331,9 @@ def run(ctx, model):
             ctx.case("rejected-address", (op, tag))
             if r != "request":
                 ctx.violation("bad-address-not-requesterror", {"tag": tag, "op": op}, r)
+    # transcript correspondence of SLCDriver.read / write with the Lean SLC driver (SlcDriver.lean), stream `slc-driver`
+    from props import slcdrv
+    slcdrv.run(ctx, model)
     outs = model.batch(lines) if lines else []
     for (stream, case, impl), out in zip(pend, outs):
         if core.norm_err(out) != core.norm_err(impl):
@@ -317,6 +341,12 @@ def run(ctx, model):
 
 
 def replay(ctx, model, data):
+    # a recorded mismatch of the `slc-driver` transcript stream is replayed on its own session
+    if data.get("kind") == "correspondence-broken":
+        from props import slcdrv
+        mine = [m for m in data.get("mismatches", []) if m.get("stream") == slcdrv.STREAM]
+        if mine:
+            return any(slcdrv.replay_case(model, m["case"]) > 0 for m in mine)
     c = core.Ctx("C18", data.get("tier", "quick"), data.get("seed", 0))
     run(c, model)
     return any(v["sig"] == data["sig"] for v in c.violations)
